@@ -149,7 +149,7 @@ func sameTables(x inst.FFT, a, b inst.Domain) string {
 }
 
 // receiverKinds: the history of the object ReadFrom decodes into.
-var receiverKinds = []string{"zero", "other_size", "same_size_other_shift", "same_size_noprecompute", "after_readfrom", "same_size_other_shift_used"}
+var receiverKinds = []string{"zero", "other_size", "other_size", "same_size_other_shift", "same_size_noprecompute", "after_readfrom", "same_size_other_shift_used"}
 
 // otherShift returns a non-zero shift different from s (the FrMultiplicativeGen of the source).
 func otherShift(t *rapid.T, f inst.Field, s *big.Int) *big.Int {
@@ -162,38 +162,52 @@ func otherShift(t *rapid.T, f inst.Field, s *big.Int) *big.Int {
 	return v
 }
 
-// mkReceiver builds the receiver of ReadFrom: (a) a zero Domain, (b) a NewDomain of another size, (c) the same
-// size with another shift (tables present), (d) the same size without precompute, (e) a Domain that already
-// decoded another same-size domain, (f) like (c) after it has been used for coset transforms.
-func mkReceiver(t *rapid.T, x inst.FFT, kind string, logn int, srcShift *big.Int) inst.Domain {
+// receiver is the object ReadFrom decodes into, with the parameters of its previous life.
+type receiver struct {
+	d    inst.Domain
+	zero bool
+	logn int            // previous cardinality 2^logn
+	pre  bool           // previous life had precomputed tables
+	opt  inst.DomainOpt // options that rebuild a fresh domain with the parameters of the previous life
+}
+
+// mkReceiver builds the receiver of ReadFrom: (a) a zero Domain, (b) a NewDomain of another size (smaller or
+// larger, with or without tables), (c) the same size with another shift (tables present), (d) the same size without
+// precompute, (e) a Domain that already decoded another same-size domain, (f) like (c) after it has been used for
+// coset transforms.
+func mkReceiver(t *rapid.T, x inst.FFT, kind string, logn int, srcShift *big.Int) *receiver {
 	f := x.F()
 	n := uint64(1) << uint(logn)
 	old := otherShift(t, f, srcShift)
 	switch kind {
 	case "zero":
-		return x.ZeroDomain()
+		return &receiver{d: x.ZeroDomain(), zero: true}
 	case "other_size":
 		l2 := rapid.IntRange(0, 10).Draw(t, "oldlogn")
 		if l2 == logn {
 			l2 = (logn + 1) % 11
 		}
-		o := inst.DomainOpt{WithoutPrecompute: rapid.Bool().Draw(t, "oldnopre")}
-		if rapid.Bool().Draw(t, "oldcustom") {
+		o := inst.DomainOpt{WithoutPrecompute: rapid.IntRange(0, 3).Draw(t, "oldnopre") == 0}
+		if rapid.IntRange(0, 3).Draw(t, "oldcustom") != 0 {
 			o.Shift = f.FromBig(old)
 		}
-		return x.NewDomain(uint64(1)<<uint(l2), o)
+		return &receiver{d: x.NewDomain(uint64(1)<<uint(l2), o), logn: l2, pre: !o.WithoutPrecompute, opt: o}
 	case "same_size_other_shift":
-		return x.NewDomain(n, inst.DomainOpt{Shift: f.FromBig(old)})
+		o := inst.DomainOpt{Shift: f.FromBig(old)}
+		return &receiver{d: x.NewDomain(n, o), logn: logn, pre: true, opt: o}
 	case "same_size_other_shift_used":
-		d := x.NewDomain(n, inst.DomainOpt{Shift: f.FromBig(old)})
+		o := inst.DomainOpt{Shift: f.FromBig(old)}
+		d := x.NewDomain(n, o)
 		v := f.NewVec(int(n))
 		d.FFT(v, inst.DIF, inst.FFTOpt{Coset: true})
 		d.FFTInverse(v, inst.DIT, inst.FFTOpt{Coset: true})
-		return d
+		return &receiver{d: d, logn: logn, pre: true, opt: o}
 	case "same_size_noprecompute":
-		return x.NewDomain(n, inst.DomainOpt{Shift: f.FromBig(old), WithoutPrecompute: true})
+		o := inst.DomainOpt{Shift: f.FromBig(old), WithoutPrecompute: true}
+		return &receiver{d: x.NewDomain(n, o), logn: logn, pre: false, opt: o}
 	default: // after_readfrom
-		prev := x.NewDomain(n, inst.DomainOpt{Shift: f.FromBig(old), WithoutPrecompute: rapid.Bool().Draw(t, "prevnopre")})
+		o := inst.DomainOpt{Shift: f.FromBig(old), WithoutPrecompute: rapid.Bool().Draw(t, "prevnopre")}
+		prev := x.NewDomain(n, o)
 		var w bytes.Buffer
 		if _, err := prev.WriteTo(&w); err != nil {
 			t.Fatalf("%s: WriteTo: %v", x.Name(), err)
@@ -202,8 +216,77 @@ func mkReceiver(t *rapid.T, x inst.FFT, kind string, logn int, srcShift *big.Int
 		if _, err := d.ReadFrom(bytes.NewReader(w.Bytes())); err != nil {
 			t.Fatalf("%s: first ReadFrom of the receiver: %v", x.Name(), err)
 		}
-		return d
+		return &receiver{d: d, logn: logn, pre: !o.WithoutPrecompute, opt: o}
 	}
+}
+
+// heldTable is a slice handed out by Twiddles/TwiddlesInv/CosetTable/CosetTableInv before the receiver is
+// refreshed, with a snapshot of its contents.
+type heldTable struct {
+	name       string
+	live, snap inst.Vec
+}
+
+// held is what a caller may still hold from the previous life of a refreshed domain: the table slices the
+// accessors returned and a plain value copy of the struct.
+type held struct {
+	tables []heldTable
+	cp     inst.Domain
+}
+
+func (rc *receiver) hold() *held {
+	if rc.zero {
+		return nil
+	}
+	h := &held{cp: rc.d.ValueCopy()}
+	add := func(name string, v inst.Vec) { h.tables = append(h.tables, heldTable{name, v, v.Clone()}) }
+	if tw, err := rc.d.Twiddles(); err == nil {
+		for k, v := range tw {
+			add(fmt.Sprintf("Twiddles()[%d]", k), v)
+		}
+	}
+	if tw, err := rc.d.TwiddlesInv(); err == nil {
+		for k, v := range tw {
+			add(fmt.Sprintf("TwiddlesInv()[%d]", k), v)
+		}
+	}
+	if v, err := rc.d.CosetTable(); err == nil {
+		add("CosetTable()", v)
+	}
+	if v, err := rc.d.CosetTableInv(); err == nil {
+		add("CosetTableInv()", v)
+	}
+	return h
+}
+
+// checkHeld runs after the receiver has been refreshed by ReadFrom: (i) the slices handed out earlier are
+// bit-identical to their snapshots, (ii) the value copy taken earlier still is the domain of its own parameters:
+// exported fields validated by the reference, tables equal to those of a freshly built domain, all 8 transforms
+// equal to the reference DFT.
+func (rc *receiver) checkHeld(t *rapid.T, x inst.FFT, h *held, what string) {
+	if h == nil {
+		return
+	}
+	for _, ht := range h.tables {
+		if i := firstDiff(x, ht.live, ht.snap); i >= 0 {
+			t.Fatalf("%s: the slice returned by %s before the receiver was refreshed changed at index %d: %s, was %s", what, ht.name, i, ht.live.At(i).Big(), ht.snap.At(i).Big())
+		}
+	}
+	n := uint64(1) << uint(rc.logn)
+	fresh := x.NewDomain(n, rc.opt)
+	if msg := sameFields(x, fresh, h.cp); msg != "" {
+		t.Fatalf("%s: value copy of the receiver taken before the refresh: %s", what, msg)
+	}
+	if msg := sameTables(x, fresh, h.cp); msg != "" {
+		t.Fatalf("%s: value copy of the receiver taken before the refresh (n=2^%d) no longer matches a freshly built domain of its parameters: %s", what, rc.logn, msg)
+	}
+	cdOld := validate(t, x, h.cp, n, h.cp.FrMultiplicativeGen().Big())
+	seed := sm64(uint64(rc.logn)*7919 + 17)
+	in := make([]*big.Int, n)
+	for i := range in {
+		in[i] = seed.elem(x.F().Q(), words(x.F()))
+	}
+	refBehaviour(t, x, cdOld, h.cp, in, what+": value copy of the receiver taken before the refresh")
 }
 
 // refBehaviour compares all 8 transform variants of the restored domain d with the reference DFT of the
@@ -287,7 +370,9 @@ func TestC10_DomainIO(t *testing.T) {
 			trailing := rapid.SampledFrom([]int{0, 0, 1, 40}).Draw(t, "trailing")
 			stream := append(append([]byte{}, enc...), bytes.Repeat([]byte{0xa5}, trailing)...)
 			into := rapid.SampledFrom(receiverKinds).Draw(t, "readfrom_into")
-			d2 := mkReceiver(t, x, into, logn, cd.shift)
+			rc := mkReceiver(t, x, into, logn, cd.shift)
+			d2 := rc.d
+			hd := rc.hold()
 			rn, err := d2.ReadFrom(mkReader(t, kind, stream))
 			cfgs := fmt.Sprintf("%s Domain(n=2^%d precompute=%s shift=%v) reader=%s trailing=%d readfrom_into=%s", x.Name(), logn, onoff(pre), sh, kind, trailing, into)
 			if err != nil {
@@ -304,6 +389,22 @@ func TestC10_DomainIO(t *testing.T) {
 				t.Fatalf("%s: restored domain behaves differently: %s", cfgs, msg)
 			}
 			refBehaviour(t, x, cd, d2, in, cfgs)
+			rc.checkHeld(t, x, hd, cfgs)
+			// which way the refresh resizes tables the receiver already owned
+			capc := "recv_tables:none"
+			if !rc.zero && rc.pre {
+				switch {
+				case logn < rc.logn:
+					capc = "recv_tables:larger_than_decoded"
+				case logn == rc.logn:
+					capc = "recv_tables:same_size_as_decoded"
+				default:
+					capc = "recv_tables:smaller_than_decoded"
+				}
+				if !pre {
+					capc += "(decoded_without_tables)"
+				}
+			}
 			// truncation at every offset must be an error (through the same kind of reader)
 			for cut := 0; cut < len(enc); cut++ {
 				d3 := x.ZeroDomain()
@@ -316,7 +417,7 @@ func TestC10_DomainIO(t *testing.T) {
 				sc = "shift=custom"
 			}
 			rep.Case(test, fmt.Sprintf("%s %s#%s", cfgs, vcls, hashVals(in)), kind != "whole" || into != "zero",
-				"readfrom_into:"+into, "reader="+kind, fmt.Sprintf("n=2^%d", logn), "precompute="+onoff(pre), sc, fmt.Sprintf("trailing=%d", trailing), "truncation:every_offset")
+				"readfrom_into:"+into, capc, "reader="+kind, fmt.Sprintf("n=2^%d", logn), "precompute="+onoff(pre), sc, fmt.Sprintf("trailing=%d", trailing), "truncation:every_offset")
 		})
 	})
 }
